@@ -35,6 +35,7 @@ def setup(ctx):
     ctx.require("monitor", "ipv6_urls", 300)
     ctx.require("monitor", "live_roundtrips", 22)
     ctx.require("monitor", "wire_lines_checked", 5000)
+    ctx.require("monitor", "live_roundtrips_via_cli", 8)
     ctx.require("monitor", "live_length_boundary_urls", 100)
 
 
@@ -198,20 +199,36 @@ def run_l3(ctx):
             for i in range(n // 5 + 1):
                 path = uri.gen_path(rng)
                 query = uri.gen_query(rng)
-                url = f"gemini://{host_text}:{srv.port}{path}" + (f"?{query}" if query is not None else "")
+                # (the scheme is case-insensitive; every third URL goes through the command line `nauyaca get`)
+                scheme = ("gemini", "GEMINI", "gemini", "Gemini", "gemini", "gEMINI")[i % 6]
+                url = f"{scheme}://{host_text}:{srv.port}{path}" + (f"?{query}" if query is not None else "")
                 v, info = uri.classify_gemini(url)
                 if v != "accept":
                     ctx.inconclusive_because(f"live URL generator produced a non-accept URL {url!r}")
                     continue
                 seen.clear()
+                via_cli = i % 3 == 1
 
                 async def go():
                     c = GeminiClient(timeout=10, trust_on_first_use=False)
                     return await c.get(url, follow_redirects=False)
 
-                wit = {"url": url, "bind": bind}
+                def go_cli():
+                    from types import SimpleNamespace
+
+                    from typer.testing import CliRunner
+
+                    from nauyaca.__main__ import app
+
+                    r = CliRunner().invoke(app, ["get", "--no-trust", "--no-redirects", "-t", "10", url])
+                    ctx.count("monitor", "live_roundtrips_via_cli")
+                    if r.exit_code != 0:
+                        raise RuntimeError(f"nauyaca get exited {r.exit_code}: {(r.output or '')[-160:]!r}")
+                    return SimpleNamespace(status=20 if len(seen) == 1 else 0, meta="(command line)")
+
+                wit = {"url": url, "bind": bind, "via": "nauyaca get (command line)" if via_cli else "GeminiClient.get"}
                 try:
-                    resp = asyncio.run(go())
+                    resp = go_cli() if via_cli else asyncio.run(go())
                 except Exception as e:  # noqa: BLE001
                     ctx.count("monitor", "live_roundtrips")
                     ctx.violation(f"wire-mismatch:client-failed:host={info['host_kind']}", f"client could not fetch an accepted URL: {e!r}", dict(wit, error=repr(e), seen=list(seen)))
